@@ -26,15 +26,20 @@ MANIFEST = {
             "command moves the clock of exactly the session it travels on (a local session's clock never moves); a password change ends "
             "every session of the user; an enabled admin always remains, whichever of the five account editors is used, accounts are never "
             "removed / renamed / demoted / overwritten, and any configured user list starts with an enabled admin; the session limit is "
-            "never exceeded and a login succeeds again once a session ended; in reachable states a session id has one client connection "
+            "never exceeded and a login succeeds again once a session ended; a local command / local login changes nothing unless the "
+            "credentials supplied WITH it are the current password of an enabled account (also while that user is logged in, after "
+            "disable, after a password change; a disabled account stays refused until enable_user); closed forms over any nesting depth "
+            "for commands, for new sessions and for which session's clock moved; in reachable states a session id has one client connection "
             "and after a client logoff no node but the target holds it; the disconnect recursion never exhausts its fuel. Tie: constants, "
             "comparison operators, guard shapes, the time-out decisions per session kind, every write to last_active_step and every "
             "account-editing statement / caller / request in the package regenerated from the source (Gen/Session.lean, obligations "
             "C16_gen_*), the requests really registered on a built node, + differential rig R-sess (2-3 real Computers on a Switch or "
-            "behind a Router whose ACL blocks single directions) comparing every answer and the whole session state after every "
+            "behind one Router or two Routers in a chain whose ACLs block single directions, which are powered off / on and whose ARP "
+            "caches are emptied mid-session) comparing every answer and the whole session state after every "
             "operation, plus the property's own oracle on the implementation.",
     "note": "C16-specific: whatever lies between two hosts is abstracted to per-direction reachability flags (Net.blocked, driven by DENY "
-            "rules for the address pair / tcp 22 on a real router in the rig; ARP-level blocks and router power are not driven) plus 'both NICs "
+            "rules for the address pair / tcp 22 and by the power state of one or two real routers in the rig; ARP frames are exempt from "
+            "a router's ACL, so there is no ARP-level block to drive; switches in between and link saturation are not driven) plus 'both NICs "
             "enabled and the receiver's terminal RUNNING'; on the routed topology a host reaches itself through its gateway (Net.hairpin); "
             "a terminal command carries any node request (file creation with a fresh name, user-manager requests, service / power "
             "requests, the direct user-session-manager requests, and terminal requests towards a further node, nested to any depth); "
